@@ -1,14 +1,48 @@
 package props
 
 import (
+	"golang.org/x/tools/go/ssa"
+
 	"jrpcvet/internal/chk"
 	"jrpcvet/internal/ir"
 )
 
 func serverGo(c *chk.Ctx) func(goClass) bool {
 	return func(gc goClass) bool {
-		return inPkg(c, gc.g.Parent(), c.M.Pkg) && ir.RecvNamed(gc.g.Parent()) == c.M.Server
+		return inPkg(c, gc.g.Parent(), c.M.Pkg) && sideOf(c, gc.g.Parent())["server"]
 	}
+}
+
+// sideOf tells to which of Server / Client a function of the root package
+// belongs: its own receiver (or that of the function it is nested in), or, for
+// helper types and plain functions, the receivers of the methods from which it
+// is reached.
+func sideOf(c *chk.Ctx, f *ssa.Function) map[string]bool {
+	out := map[string]bool{}
+	seen := map[*ssa.Function]bool{}
+	var walk func(g *ssa.Function, depth int)
+	walk = func(g *ssa.Function, depth int) {
+		if g == nil || seen[g] || depth > 8 {
+			return
+		}
+		seen[g] = true
+		switch ir.RecvNamed(ir.Root(g)) {
+		case c.M.Server:
+			out["server"] = true
+			return
+		case c.M.Client:
+			out["client"] = true
+			return
+		}
+		if g.Parent() != nil {
+			walk(g.Parent(), depth+1)
+		}
+		for _, s := range c.P.Callers(g) {
+			walk(s.Caller, depth+1)
+		}
+	}
+	walk(f, 0)
+	return out
 }
 
 // ruleLifetimeWaited: goroutines tracked by the owner's lifetime WaitGroup are
